@@ -572,6 +572,7 @@ def explore(ctx):
     ctx.notes["alphabets"] = {k: len(v) for k, v in dims.items()}
     reqs = request_cases(ctx.quick)
     allres += ctx.run(MOD, "run_case", reqs, part="pressure-requests", chunksize=2)
+    ctx.run_under(MOD, "run_case", reqs[:2] + anch[:1] if False else reqs[:3], ("-O",))   # interpreter started with -O (asserts stripped)
     ctx.notes["pressure_requests"] = {"requests": len(REQUESTS), "cases": len(reqs)}
     anch = anchored_cases(ctx.quick)
     allres += ctx.run(MOD, "run_case", anch, part="range-edge-requests", chunksize=2)
